@@ -243,16 +243,23 @@ def gen_http():
 
     def lstr(s):
         return '"' + s.replace("\\", "\\\\").replace('"', '\\"') + '"'
+
+    def lbytes(x):
+        return "[" + ", ".join(str(c) for c in x.encode("latin1")) + "]"
     out = [extract.HEADER % "src/include/microhttpd.h, src/microhttpd/internal.h (evaluated by compiling connection.c)",
            "namespace Mhd.Gen.Http",
            "/-- standard methods recognised by `parse_http_std_method`, with their `enum MHD_HTTP_Method` value -/",
            "def stdMethods : List (String × Nat) := [" + ", ".join("(%s, %s)" % (lstr(v["s_" + m]), v["e_" + m]) for m in METHODS) + "]",
+           "/-- the same with the method strings as bytes (what the model compares; no `String` at run time) -/",
+           "def stdMethodBytes : List (List UInt8 × Nat) := [" + ", ".join("(%s, %s)" % (lbytes(v["s_" + m]), v["e_" + m]) for m in METHODS) + "]",
            "def mthdNoMethod : Nat := %s" % v["e_NO"], "def mthdOther : Nat := %s" % v["e_OTHER"],
            "def mthdGet : Nat := %s" % v["e_GET"], "def mthdDelete : Nat := %s" % v["e_DELETE"],
            "def verInvalid : Int := %s" % v["v_INVALID"], "def verUnknown : Int := %s" % v["v_UNKNOWN"],
            "def verTooOld : Int := %s" % v["v_TOO_OLD"], "def ver10 : Int := %s" % v["v_1_0"],
            "def ver11 : Int := %s" % v["v_1_1"], "def ver12_19 : Int := %s" % v["v_1_2"], "def verFuture : Int := %s" % v["v_FUTURE"],
            "def hdrCookie : String := %s" % lstr(v["h_cookie"]), "def hdrHost : String := %s" % lstr(v["h_host"]),
+           "def hdrCookieBytes : List UInt8 := %s" % lbytes(v["h_cookie"]), "def hdrHostBytes : List UInt8 := %s" % lbytes(v["h_host"]),
+           "def hdrTransferEncodingBytes : List UInt8 := %s" % lbytes(v["h_te"]), "def hdrContentLengthBytes : List UInt8 := %s" % lbytes(v["h_cl"]),
            "def hdrTransferEncoding : String := %s" % lstr(v["h_te"]), "def hdrContentLength : String := %s" % lstr(v["h_cl"]),
            "def kindHeader : Nat := %s" % v["k_header"], "def kindCookie : Nat := %s" % v["k_cookie"],
            "def kindGetArgument : Nat := %s" % v["k_get"], "def kindFooter : Nat := %s" % v["k_footer"],
@@ -642,22 +649,26 @@ class Spec:
         G = b"GET "
         jobs = []   # (op, fixed, pre, maxlen, suf)
         for lvl in LEVELS:
+            # levels 2 and 3 differ only in a body flag (chunk extensions): level 3 gets the short bound here
+            rl_ = raw_len if lvl != 3 else 3
+            t_ = tl if lvl != 3 else 3
             # request line + first field lines, raw strings
-            jobs.append(("enum", (lvl, 32768, 64), b"", raw_len, b""))
+            jobs.append(("enum", (lvl, 32768, 64), b"", rl_, b""))
             # the request target position
-            jobs.append(("enum", (lvl, 32768, 64), G, tl, b" HTTP/1.1\r\n\r\n"))
-            jobs.append(("enum", (lvl, 32768, 64), b"GET", tl, b"HTTP/1.0\n\n"))
+            jobs.append(("enum", (lvl, 32768, 64), G, t_, b" HTTP/1.1\r\n\r\n"))
+            jobs.append(("enum", (lvl, 32768, 64), b"GET", t_, b"HTTP/1.0\n\n"))
             # line end of the request line and what follows
-            jobs.append(("enum", (lvl, 32768, 64), b"G /?a HTTP/1.0", tl, b""))
-            jobs.append(("enum", (lvl, 32768, 4096), b"G /?a=1 HTTP/1.0", tl, b"\n"))
+            jobs.append(("enum", (lvl, 32768, 64), b"G /?a HTTP/1.0", t_, b""))
+            jobs.append(("enum", (lvl, 32768, 4096), b"G /?a=1 HTTP/1.0", t_, b"\n"))
             # field lines (small read buffer: header tail re-used; large: not)
-            jobs.append(("enum", (lvl, 32768, 64), b"G / HTTP/1.0\r\n", tl, b""))
-            jobs.append(("enum", (lvl, 32768, 4096), b"GET / HTTP/1.1\r\n", tl, b"\r\n\r\nGE"))
-            jobs.append(("enum", (lvl, 32768, 96), b"G /?a HTTP/1.1\r\nx:1", tl, b"\na:1\n\nZ"))
-            jobs.append(("enum", (lvl, 32768, 64), b"G / HTTP/1.0\r\nCookie:", tl, b"\r\n\r\n"))
-            jobs.append(("enumargs", (lvl,), b"", raw_len, b""))
-            jobs.append(("enumck", (lvl,), b"", raw_len, b""))
-            jobs.append(("enumck", (lvl,), b"a=1", tl, b"a=1"))
+            jobs.append(("enum", (lvl, 32768, 64), b"G / HTTP/1.0\r\n", t_, b""))
+            jobs.append(("enum", (lvl, 32768, 4096), b"GET / HTTP/1.1\r\n", t_, b"\r\n\r\nGE"))
+            jobs.append(("enum", (lvl, 32768, 96), b"G /?a HTTP/1.1\r\nx:1", t_, b"\na:1\n\nZ"))
+            jobs.append(("enum", (lvl, 32768, 64), b"G / HTTP/1.0\r\nCookie:", t_, b"\r\n\r\n"))
+            # arguments: two behaviours (strict / lenient decoding); cookies: thresholds at -3, -2, 0, 1
+            jobs.append(("enumargs", (lvl,), b"", raw_len if lvl in (-1, 0) else 3, b""))
+            jobs.append(("enumck", (lvl,), b"", raw_len if lvl in (-3, -2, 0, 1, 2) else 3, b""))
+            jobs.append(("enumck", (lvl,), b"a=1", t_, b"a=1"))
         # split every job by first symbol so that the 16 cores are used
         units = []
         for (op, fixed, pre, maxlen, suf) in jobs:
@@ -848,8 +859,13 @@ class Spec:
         wire = b""
         for l in out:
             if l.startswith("unstable"):
-                failures.append(vlib.Failure("oracle", "conn/daemon: a string shown to the handler changed before completion", l, inp, "conn"))
-                return
+                # a request that does not fit is answered from a reset pool (413/414/431): its strings are gone by
+                # the time of the completion callback — outside the property ("as long as the request fits")
+                at_completed = " at=completed " in l
+                nospace_reply = any(re.search(rb"HTTP/1\.[01] (413|414|431) ", bytes.fromhex(x.split()[2])) for x in out if x.startswith("wire c=0 "))
+                if not (at_completed and nospace_reply):
+                    failures.append(vlib.Failure("oracle", "conn/daemon: a string shown to the handler changed before completion", l, inp, "conn"))
+                    return
             if l.startswith("handler c=0"):
                 d = dict(w.split("=", 1) for w in l.split()[1:] if "=" in w)
                 if d["phase"] == "first":
